@@ -13,7 +13,8 @@ LEVEL = "exploration"
 RULE = (
     "(a) Hypothesis scheduler inputs built through the public API as the simulator would (mixtures of completed, running, "
     "scheduled-for-later and released tasks of small DAGs on partially occupied heterogeneous 1-2 pools x 1-2 workers), one "
-    "invocation of each of the eight bundled policies under generated options; (b) every invocation inside generated end-to-end "
+    "invocation of each of the eight bundled policies under generated options (incl. congested short plan-ahead windows for "
+    "TetriSched-Gurobi and commitments that can no longer be kept); (b) every invocation inside generated end-to-end "
     "runs of the greedy policies and the MILP planners. Non-trivial = an invocation with >= 2 offered tasks and a non-empty "
     "cluster or a previously scheduled task; distinct by case hash."
 )
